@@ -17,7 +17,7 @@ import numpy as np
 import sympy as sp
 
 from wgvc.api import *            # noqa: F401,F403
-from wgvc import sym, stubs
+from wgvc import sym, stubs, source
 from wgvc.builtins_model import as_array
 from wgvc.smt import quick_sat
 from .C04_plasma import EOMQ
@@ -168,6 +168,7 @@ def build(chk):
     c_manager(chk)
     c_frames(chk)
     c_detonation(chk)
+    c_wallPressure_body(chk)
 
 
 def c_solveWall(chk):
@@ -461,6 +462,164 @@ def c_frames(chk):
                        And(Ge(e["args"][0], lo[which]), Le(e["args"][0], hi[which])), func=fn)
     if n < 2:
         chk.undecided.append("wallPressure: free-energy evaluations not reached")
+
+
+def c_wallPressure_body(chk):
+    """The body of EOM.wallPressure, with _intermediatePressureResults / _getNextPressure under contract (each returns a fresh pressure, wall
+    parameters, Boltzmann results and background) and a loop contract for the convergence iteration, for every iteration count:
+      * the hydrodynamic data returned (T+, T-, vJ) are those of findHydroBoundaries AT the wall velocity asked for;
+      * on a converged exit the four items returned come from ONE evaluation, the last one made, the flag successWallPressure is the True
+        written at the start, and the exit test |P_k - P_{k-1}| < max(rtol |P_k|, atol) * multiplier (or the inner-solver variant) held;
+      * on the iteration-limit exit the flag is False (and only then);  atol/rtol default to the object's tolerances.
+    Loop contract: `pressures` is abstracted by its length class (1, 2, 3, >= 4: the body only looks at the last four entries and at
+    len() against 2 and 4), the invariant says that (pressure, wallParams, boltzmannResults, boltzmannBackground) are the outputs of one and
+    the same evaluation, that pressures[-1] is that pressure, multiplier > 0, i >= 0 and that the flag has not been lowered."""
+    import ast as _ast
+    from wgvc.interp import _Break, PathEnd as _PathEnd
+    fn = f"{EOMQ}.wallPressure"
+    vw = real("vw")
+    HB = {k: specfun(f"hb.{k}") for k in ("c1", "c2", "Tplus", "Tminus", "velocityMid")}
+    lo, hi = {"Low": real("rangeMinLow"), "High": real("rangeMinHigh")}, {"Low": real("rangeMaxLow"), "High": real("rangeMaxHigh")}
+
+    def evaluation(it, name, inputs):
+        n = sum(1 for e in it.events if e.get("kind") == "evaluation")
+        rec = {"kind": "evaluation", "name": name, "n": n, "P": it.fresh_real(f"P{n}"), "wp": params(f"eval{n}"), "br": bres(f"eval{n}"),
+               "bb": SymObj("BoltzmannBackground", "containers", label=f"background.eval{n}",
+                            attrs={"temperatureProfile": as_array([it.fresh_real(f"Tprof{n}.{j}") for j in range(4)]),
+                                   "velocityProfile": as_array([it.fresh_real(f"vprof{n}.{j}") for j in range(4)])}),
+               "err": it.fresh_real(f"errSolver{n}"), "inputs": inputs}
+        it.events.append(rec)
+        return rec
+
+    def ipr(it, so, a, k):
+        r = evaluation(it, "_intermediatePressureResults", (list(a), dict(k)))
+        return (r["P"], r["wp"], r["br"], r["bb"])
+
+    def gnp(it, so, a, k):
+        r = evaluation(it, "_getNextPressure", (list(a), dict(k)))
+        it.assume(Ge(r["err"], 0))
+        return (r["P"], r["wp"], r["br"], r["bb"], r["err"])
+    reg = {"Hydrodynamics.findHydroBoundaries": lambda it, so, a, k: (it.event(kind="contract-call", name="findHydroBoundaries", args=list(a)),
+                                                                     tuple(HB[n](a[0]) for n in ("c1", "c2", "Tplus", "Tminus", "velocityMid")))[1],
+           "EOM._updateGrid": lambda it, so, a, k: it.event(kind="contract-call", name="_updateGrid", args=list(a)),
+           "EOM._intermediatePressureResults": ipr, "EOM._getNextPressure": gnp,
+           "Polynomial.__new__": lambda it, cref, a, k: SymObj("Polynomial", "polynomial", label="zeroPoly"),
+           "BoltzmannDeltas.__new__": lambda it, cref, a, k: SymObj("BoltzmannDeltas", "containers", label="zeroDeltas"),
+           "BoltzmannResults.__new__": lambda it, cref, a, k: SymObj("BoltzmannResults", "results", label="zeroResults"),
+           "HydroResults.__new__": lambda it, cref, a, k: SymObj("HydroResults", "results", label="hydroResults", attrs=dict(k)),
+           "FreeEnergy.__call__": lambda it, so, a, k: SymObj("FreeEnergyValueType", "freeEnergy", label="fev", attrs={"fieldsAtMinimum": Opaque(so.label + ".vev"), "veffValue": real(so.label + ".veff")}),
+           "FreeEnergy.interpolationRangeMax": lambda it, so, a, k: hi[so.label.replace("freeEnergy", "")],
+           "FreeEnergy.interpolationRangeMin": lambda it, so, a, k: lo[so.label.replace("freeEnergy", "")]}
+    LOOPVARS = ("pressure", "wallParams", "boltzmannResults", "boltzmannBackground")
+
+    def same_evaluation(it, env):
+        """the four loop variables are the outputs of one evaluation (the last one recorded)"""
+        evs = [e for e in it.events if e.get("kind") == "evaluation"]
+        if not evs:
+            return False
+        e = evs[-1]
+        return (env.lookup("pressure") is e["P"] and env.lookup("wallParams") is e["wp"] and env.lookup("boltzmannResults") is e["br"]
+                and env.lookup("boltzmannBackground") is e["bb"])
+
+    def make_lspec(length_class):
+        def lspec(it, st, env, clo):
+            def invariant():
+                ps = env.lookup("pressures")
+                fs = [sym.to_sym(bool(same_evaluation(it, env))), sym.to_sym(bool(isinstance(ps, list) and len(ps) >= 1 and ps[-1] is env.lookup("pressure"))),
+                      Gt(env.lookup("multiplier"), 0), Ge(env.lookup("i"), 0),
+                      sym.to_sym(clo.self_obj.attrs.get("successWallPressure") is True)]
+                return fs
+            for k_, f in enumerate(invariant()):
+                it.oblige(f"loop-invariant.entry.{k_}", f, kind="inv")
+            # havoc: an arbitrary earlier iteration left this state
+            r = evaluation(it, "arbitrary-earlier-evaluation", None)
+            env.vars.update(pressure=r["P"], wallParams=r["wp"], boltzmannResults=r["br"], boltzmannBackground=r["bb"])
+            env.vars["pressures"] = [it.fresh_real(f"Pold{j}") for j in range(length_class - 1)] + [r["P"]]
+            env.vars["multiplier"] = it.fresh_real("multiplier.k")
+            env.vars["i"] = it.fresh_int("i.k")
+            env.vars["improveConvergence"] = it.fresh_bool("improve.k")
+            env.vars["errorSolver"] = it.fresh_real("errorSolver.k")
+            env.vars["error"] = it.fresh_real("error.k")
+            env.vars["errTol"] = it.fresh_real("errTol.k")
+            it.event(kind="loop-havoc", length_class=length_class)
+            for f in invariant():
+                it.assume(f)
+            try:
+                it.exec_block(st.body, env, clo)
+            except _Break:
+                it.event(kind="loop-exit", where=clo.qualname, via="break", improve=env.lookup("improveConvergence"), error=env.lookup("error"),
+                         errorSolver=env.lookup("errorSolver"), errTol=env.lookup("errTol"), multiplier=env.lookup("multiplier"), pressures=list(env.lookup("pressures")))
+                return
+            for k_, f in enumerate(invariant()):
+                it.oblige(f"loop-invariant.preserved.{k_}", f, kind="inv")
+            raise _PathEnd()
+        return lspec
+    assigned_ok = {"pressure", "wallParams", "boltzmannResults", "boltzmannBackground", "errorSolver", "error", "errTol", "i", "multiplier", "improveConvergence"}
+    src = source.get_function(MODULE, "EOM.wallPressure").node
+    loops_ast = [n for n in _ast.walk(src) if isinstance(n, _ast.While)]
+    names = {n.id for w_ in loops_ast for b in w_.body for n in _ast.walk(b) if isinstance(n, _ast.Name) and isinstance(n.ctx, _ast.Store)}
+    stores = {_ast.unparse(n) for w_ in loops_ast for b in w_.body for n in _ast.walk(b) if isinstance(n, _ast.Attribute) and isinstance(n.ctx, _ast.Store)}
+    chk.vc("wallPressure.loop.frame", [], sym.to_sym(len(loops_ast) == 1 and names <= assigned_ok and stores <= {"self.successWallPressure"}), func=fn, kind="frame",
+           meta={"assigned": sorted(names), "stores": sorted(stores)})
+    if not (len(loops_ast) == 1 and names <= assigned_ok and stores <= {"self.successWallPressure"}):
+        return
+    atol_in, rtol_in = real("atol.in"), real("rtol.in")
+    for tolmode in ("defaults", "given"):
+        for length_class in (1, 2, 3, 4):
+            def mk(it, tolmode=tolmode):
+                eom = make_eom()
+                th = eom.attrs["thermo"]
+                for which in ("Low", "High"):
+                    th.attrs[f"freeEnergy{which}"] = SymObj("FreeEnergy", "freeEnergy", label=f"freeEnergy{which}")
+                    it.assume(Le(lo[which], hi[which]))
+                eom.attrs.update(particles=[], grid=SymObj("Grid3Scales", "grid3Scales", label="grid", attrs={"M": 3, "N": 3}),
+                                 forceImproveConvergence=boolean("forceImproveConvergence"), forceEnergyConservation=boolean("forceEnergyConservation"),
+                                 pressAbsErrTol=real("pressAbsErrTol"))
+                for c in (Gt(real("pressAbsErrTol"), 0), Gt(real("pressRelErrTol"), 0), Gt(atol_in, 0), Gt(rtol_in, 0), Ge(integer("maxIterations"), 2)):
+                    it.assume(c)
+                kw = {} if tolmode == "defaults" else {"atol": atol_in, "rtol": rtol_in}
+                return eom, [vw, params("in")], kw, {"eom": eom}
+            paths = chk.summarize(MODULE, "EOM.wallPressure", mk, registry=reg, loop_specs={("EOM.wallPressure", 0): make_lspec(length_class)},
+                                  record=False)
+            rets = sel(paths)
+            tag = f"{tolmode}.len{length_class}"
+            if not rets:
+                chk.undecided.append(f"wallPressure[{tag}]: no returning path")
+            for p in sel(paths, "raise"):
+                chk.undecided.append(f"wallPressure[{tag}] raises {p.exc.cls} {p.exc.xargs}")
+            atol = real("pressAbsErrTol") if tolmode == "defaults" else atol_in
+            rtol = real("pressRelErrTol") if tolmode == "defaults" else rtol_in
+            for i, p in enumerate(rets):
+                eom = p.state["eom"]
+                P, wp, br, bb, hr = p.value
+                evs = [e for e in p.events if e.get("kind") == "evaluation"]
+                ex = [e for e in p.events if e.get("kind") == "loop-exit"]
+                hb = [e for e in p.events if e.get("name") == "findHydroBoundaries"]
+                chk.vc(f"wallPressure.body.{tag}.hydro-data-at-the-velocity-asked.{i}", p.pc,
+                       And(sym.to_sym(len(hb) == 1 and hb[0]["args"][0] is vw and isinstance(hr, SymObj)),
+                           Eq(hr.attrs["temperaturePlus"], HB["Tplus"](vw)), Eq(hr.attrs["temperatureMinus"], HB["Tminus"](vw)), Eq(hr.attrs["velocityJouguet"], vJ)), func=fn)
+                flag = eom.attrs.get("successWallPressure")
+                if len(ex) != 1:
+                    chk.undecided.append(f"wallPressure[{tag}]: returning path without a loop exit")
+                    continue
+                e = ex[0]
+                last = evs[-1]
+                if flag is True:
+                    chk.vc(f"wallPressure.body.{tag}.converged.outputs-of-the-last-evaluation.{i}", p.pc,
+                           sym.to_sym(bool(P is last["P"] and wp is last["wp"] and br is last["br"] and bb is last["bb"])), func=fn)
+                    ps = e["pressures"]
+                    errTol = sp.Max(rtol * sp.Abs(last["P"]), atol) * e["multiplier"]
+                    err = sp.Abs(ps[-1] - ps[-2])
+                    chk.vc(f"wallPressure.body.{tag}.converged.exit-test-held.{i}", p.pc,
+                           And(sym.to_sym(ps[-1] is last["P"]), Or(Lt(err, errTol), And(Lt(e["errorSolver"], errTol), e["improve"])), Le(e["errorSolver"], errTol)), func=fn)
+                else:
+                    chk.vc(f"wallPressure.body.{tag}.not-converged.flag-false-and-iteration-limit.{i}", p.pc,
+                           sym.to_sym(flag is False), func=fn)
+                    ps = e["pressures"]
+                    k4 = ps[-4:]
+                    chk.vc(f"wallPressure.body.{tag}.not-converged.mean-of-last-evaluations.{i}", p.pc,
+                           And(Eq(P * len(k4), sum(k4)), sym.to_sym(bool(wp is last["wp"] and br is last["br"] and bb is last["bb"]))), func=fn)
+    chk.under_contract(MODULE, "EOM.wallPressure")
 
 
 def c_detonation(chk):
